@@ -149,9 +149,13 @@ Record symdecl := {
 
 Definition sd_nullary (d : symdecl) : bool := match sd_args d with [] => true | _ => false end.
 
-(* PtStore::isAmbiguousNullarySymbolName(key): at least two nullary symbols are called key *)
-Definition is_ambiguous (env : list symdecl) (key : string) : bool :=
-  2 <=? List.length (filter (fun d => String.eqb (sd_name d) key && sd_nullary d) env).
+(* PtStore::isAmbiguousNullarySymbolName(key): at least two nullary symbols are called key.  The pinned code counts the
+   constants fixed by the language too (the numeral 1 beside a user symbol |1|; it never finds them, because of the key);
+   the repair, and what a reader needs (needs_qualification below), count the uninterpreted ones only. *)
+Definition homonyms (uninterpreted_only : bool) (env : list symdecl) (key : string) : nat :=
+  List.length (filter (fun d => String.eqb (sd_name d) key && sd_nullary d && (negb uninterpreted_only || negb (sd_interp d))) env).
+
+Definition is_ambiguous (env : list symdecl) (key : string) : bool := 2 <=? homonyms true env key.
 
 Definition isQuoted (s : string) : bool :=
   (2 <? String.length s) && Ascii.eqb (front s) c_bar && Ascii.eqb (back s) c_bar.
@@ -165,7 +169,7 @@ Definition disambiguateName (v : variant) (env : list symdecl) (protectedName : 
     let name := if isQuoted protectedName then inner protectedName else protectedName in
     (* the key the symbol store is asked for: name.data() is not NUL-terminated at the end of the view *)
     let key := if isQuoted protectedName && v_view_key_bug v then inner protectedName ++ bar else name in
-    if negb (isKnownToUser name) || is_ambiguous env key
+    if negb (isKnownToUser name) || (2 <=? homonyms (negb (v_view_key_bug v)) env key)
     then "(as " ++ protectedName ++ " " ++ sortStr ++ ")"
     else protectedName.
 
